@@ -1,6 +1,7 @@
 //! C19 - default categories and modifiers classify every term as documented.
 
 use super::common::{via_binary, via_builder, via_jax};
+use hpo::annotations::AnnotationId;
 use crate::ctx::Ctx;
 use crate::drive;
 use crate::encode::{self, EncOpts};
@@ -118,6 +119,167 @@ pub fn run(ctx: &mut Ctx) {
             }
         }
         jax::cleanup();
+    }
+    // ---- the public setters, called in every order on an ontology built WITHOUT defaults (and interleaved
+    // with clearing the lists through the public mutators): each setter installs its documented default,
+    // independent of the other list and of what was called before
+    {
+        #[derive(Clone, Copy, Debug, PartialEq)]
+        enum Op {
+            Cat,
+            Mod,
+            ClearMod,
+            ClearCat,
+        }
+        let alpha = [Op::Cat, Op::Mod, Op::ClearMod, Op::ClearCat];
+        let mut seqs: Vec<Vec<Op>> = vec![vec![]];
+        let mut frontier: Vec<Vec<Op>> = vec![vec![]];
+        for _ in 0..3 {
+            let mut next = vec![];
+            for q in &frontier {
+                for a in alpha {
+                    let mut t = q.clone();
+                    t.push(a);
+                    next.push(t);
+                }
+            }
+            seqs.extend(next.iter().cloned());
+            frontier = next;
+        }
+        for n in 2..=4usize {
+            let dags = all_dags(n);
+            ctx.space(&format!("setters/D{n}/call-sequences"), &format!("{} labelled DAGs over {:?} (also with HP:1 / HP:118 replaced by an unrelated id) built with build_minimal x all {} sequences of length <= 3 over {{set_default_categories, set_default_modifier, modifier_mut().clear(), categories_mut().clear()}}: return values, both lists and every term's is_modifier / categories after every step", dags.len(), &POOLS[0][..n], seqs.len()));
+            for d in &dags {
+                if !ctx.take() {
+                    continue;
+                }
+                ctx.state();
+                ctx.nontrivial();
+                let pool = if n <= 3 { [1u32, 118, 119, 4000, 77_777, 9_999_999] } else { [1, 5, 118, 4000, 77_777, 9_999_999] };
+                let base = Facts::from_dag(d, &pool);
+                for swap in [None, Some((1u32, 2u32)), Some((118, 117))] {
+                    let mut f = base.clone();
+                    if let Some((from, to)) = swap {
+                        for t in f.terms.iter_mut() {
+                            if t.id == from {
+                                t.id = to;
+                            }
+                        }
+                        for e in f.edges.iter_mut() {
+                            if e.0 == from {
+                                e.0 = to;
+                            }
+                            if e.1 == from {
+                                e.1 = to;
+                            }
+                        }
+                    }
+                    let r = RefOnt::derive(&f);
+                    let has1 = r.terms.contains_key(&1);
+                    let has118 = r.terms.contains_key(&118);
+                    let def_mod = r.modifier_roots(Mode::Defaults);
+                    let def_cat = r.categories(Mode::Defaults);
+                    for seq in &seqs {
+                        ctx.exec();
+                        ctx.validated();
+                        ctx.transitions(f.n_steps() + seq.len() as u64);
+                        let res = crate::ctx::guard(|| -> Option<(String, String, String)> {
+                            let mut ont = match drive::build(&f, Mode::Minimal) {
+                                Ok(o) => o,
+                                Err(e) => return Some(("Builder".into(), "construction fails on valid facts".into(), e)),
+                            };
+                            let mut cur_mod: std::collections::BTreeSet<u32> = Default::default();
+                            let mut cur_cat: std::collections::BTreeSet<u32> = Default::default();
+                            for (step, op) in seq.iter().enumerate() {
+                                match op {
+                                    Op::Cat => {
+                                        let ok = ont.set_default_categories().is_ok();
+                                        if ok != (has1 && has118) {
+                                            return Some(("Ontology::set_default_categories".into(), if ok { "succeeds although a root term is missing".into() } else { "fails although both root terms exist".into() }, format!("step {step} of {seq:?}")));
+                                        }
+                                        if ok {
+                                            cur_cat = def_cat.clone();
+                                        }
+                                    }
+                                    Op::Mod => {
+                                        let ok = ont.set_default_modifier().is_ok();
+                                        if ok != has1 {
+                                            return Some(("Ontology::set_default_modifier".into(), if ok { "succeeds although HP:0000001 is missing".into() } else { "fails although HP:0000001 exists".into() }, format!("step {step} of {seq:?}")));
+                                        }
+                                        if ok {
+                                            cur_mod = def_mod.clone();
+                                        }
+                                    }
+                                    Op::ClearMod => {
+                                        *ont.modifier_mut() = hpo::term::HpoGroup::new();
+                                        cur_mod.clear();
+                                    }
+                                    Op::ClearCat => {
+                                        *ont.categories_mut() = hpo::term::HpoGroup::new();
+                                        cur_cat.clear();
+                                    }
+                                }
+                                let got_mod: Vec<u32> = ont.modifier().iter().map(|i| i.as_u32()).collect();
+                                let got_cat: Vec<u32> = ont.categories().iter().map(|i| i.as_u32()).collect();
+                                if got_mod != cur_mod.iter().copied().collect::<Vec<u32>>() {
+                                    return Some(("Ontology::modifier".into(), "modifier roots are not the documented default after the setter calls".into(), format!("after step {step} of {seq:?}: {got_mod:?} expected {cur_mod:?}")));
+                                }
+                                if got_cat != cur_cat.iter().copied().collect::<Vec<u32>>() {
+                                    return Some(("Ontology::categories".into(), "categories are not the documented default after the setter calls".into(), format!("after step {step} of {seq:?}: {got_cat:?} expected {cur_cat:?}")));
+                                }
+                                for t in &ont {
+                                    let id = t.id().as_u32();
+                                    let anc = r.anc_incl(id);
+                                    let want_m = anc.iter().any(|a| cur_mod.contains(a));
+                                    if t.is_modifier() != want_m {
+                                        return Some(("HpoTerm::is_modifier".into(), "does not follow the installed modifier roots".into(), format!("term {id} after step {step} of {seq:?}")));
+                                    }
+                                    let want_c: Vec<u32> = anc.iter().copied().filter(|a| cur_cat.contains(a)).collect();
+                                    let got_c: Vec<u32> = t.categories().iter().map(|i| i.as_u32()).collect();
+                                    if got_c != want_c {
+                                        return Some(("HpoTerm::categories".into(), "does not follow the installed categories".into(), format!("term {id} after step {step} of {seq:?}: {got_c:?} expected {want_c:?}")));
+                                    }
+                                }
+                            }
+                            None
+                        });
+                        match res {
+                            Ok(None) => {}
+                            Ok(Some((site, sig, det))) => {
+                                ctx.violation(&site, &format!("[setter sequence] {sig}"), json!({"facts": f.to_json(), "sequence": format!("{seq:?}"), "difference": det}));
+                                break;
+                            }
+                            Err(p) => {
+                                ctx.violation("Ontology setters", "[setter sequence] panics", json!({"facts": f.to_json(), "sequence": format!("{seq:?}"), "observed": p}));
+                                break;
+                            }
+                        }
+                    }
+                }
+                ctx.sample(|| json!({"dag": d.describe(), "sequences": seqs.len()}));
+            }
+        }
+    }
+    // ---- structured large graphs (deep chain of 300, fans, trunk + fork ...) in ancestors-first and
+    // descendants-first supply order: classification of terms far below the roots
+    {
+        let family = super::common::large_family();
+        ctx.space("defaults/large-structured", &format!("{} large shapes x (ascending | descending | inside-out supply order) via Builder::build_with_defaults and from_bytes v3: modifier roots, categories, is_modifier and per-term categories of every term", family.len()));
+        for (base, what) in &family {
+            if !ctx.take() {
+                continue;
+            }
+            ctx.state();
+            ctx.nontrivial();
+            let r = RefOnt::derive(base);
+            let n = base.terms.len();
+            for (order, oname) in super::common::large_orders(n).into_iter().filter(|(_, name)| !name.starts_with("rotated") && !name.starts_with("even")) {
+                let f = Facts { terms: crate::space::apply_perm(&base.terms, &order), ..base.clone() };
+                via_builder(ctx, &f, &r, Mode::Defaults, oname);
+                via_binary(ctx, &f, &EncOpts::v(3), oname);
+            }
+            ctx.sample(|| json!({"shape": what, "n_terms": n}));
+        }
     }
     // ---- sequences of ontologies built one after the other at the same address
     super::common::ontology_sequences(ctx, "defaults", Mode::Defaults, &mut super::common::obs_oracle(Mode::Defaults));
